@@ -1,7 +1,7 @@
 (* One entry point for the OCaml runner: op name and byte-string arguments
    in, (result bytes, tag text) out.  All structure is decoded here, in Coq. *)
 From Coq Require Import NArith ZArith List Bool String.
-From GJ Require Import Base.Bytes Base.Show Model.Int Model.StrEnc Model.StrDec Model.Compact Model.Iface Model.Path Model.KeyBitmap Spec.Json Gen.Resets Model.Mem Base.TypeAddrBase Gen.TypeAddr Model.TypeCache Model.Stream Model.StreamInst Model.Enc Model.EncIndent Gen.Query Model.Query Model.Decode Model.EncTyped.
+From GJ Require Import Base.Bytes Base.Show Model.Int Model.StrEnc Model.StrDec Model.Compact Model.Iface Model.Path Model.KeyBitmap Spec.Json Gen.Resets Model.Mem Base.TypeAddrBase Gen.TypeAddr Model.TypeCache Model.Stream Model.StreamInst Model.Enc Model.EncIndent Gen.Query Model.Query Model.Decode Model.EncTyped Model.Skip.
 Import ListNotations.
 Open Scope N_scope.
 Open Scope string_scope.
@@ -81,6 +81,19 @@ Definition dispatch (op : list N) (args : list (list N)) : list N * list N :=
     (* arg0 = "1" when every number of the text fits float64 (strconv oracle) *)
     (match iface_unmarshal (fun _ => N.eqb (nth 0 (arg 0 args) 48) 49) (arg 1 args) with
      | COk _ => [65] | CErr => [82] | CFuel => str "fuel" | CStuck => str "stuck" end, [])
+  else if list_eqb op (str "c05.skip") then
+    (* Unmarshal(data, &raw) with raw a RawMessage: skipWhiteSpace, skipValue at depth 0, validateEndBuf;
+       on success the number of bytes handed to UnmarshalJSON *)
+    (let s0 := d_skip_ws (arg 0 args ++ [0]) in
+     match sk_value 0 s0 with
+     | SOk rest => match validate_end rest with
+                   | Some true => 65 :: show_N (N.of_nat (List.length s0 - List.length rest))
+                   | Some false => [82]
+                   | None => str "stuck"
+                   end
+     | SErr => [82]
+     | SStuck => str "stuck"
+     end, [])
   else if list_eqb op (str "c20.build") then
     (match Path.build (arg 0 args) with
      | BStuck => str "stuck" | BFuel => str "fuel" | BErr => [69]
